@@ -114,7 +114,7 @@ initialX, minX, maxX, tolerance, convergenceLimit float64, maxIterations int) (x
 			// minDelta = minTrialDelta
 		}
 
-		if hitConvergenceLimit == len(trialXs) {
+		if hitConvergenceLimit == len(trialXs) && iteration > 0 {
 			return
 		}
 	}
